@@ -41,7 +41,7 @@ import nfc.clf
 import nfc.tag
 
 from vlib import isodep_card, ref_tlv, simtags, tagdev
-from vlib.engine import Leg, Violation, unexpected
+from vlib.engine import Leg, Violation, unexpected, twin_env
 from props import tagcommon as tc
 
 PROPERTY = "C08"
@@ -1027,3 +1027,10 @@ LEGS = [
              "C08 oracle, octets must equal the stored message; non-trivial "
              "= the k-th APDU was reached."),
 ]
+
+# the same searches with every nfc logger enabled down to the lowest level
+# (code that only runs, or only evaluates its arguments, when logging is on)
+_byl = dict((lg.name, lg) for lg in LEGS)
+LEGS += [twin_env(_byl[n], "log", {"VERIF_LOG": "debug"}, quick=q, thorough=t,
+                  shards_quick=2)
+         for n, q, t in [('t4t-mem', 300, 3000)] if n in _byl]
